@@ -437,10 +437,31 @@ def get_encoding_whole_file(tier, seed):
                                 "strict_decode_error": err, "answer_for_configured_latin-1": conf,
                                 "content": f"{bom!r} + ascii_header({n}) + " + repr(("SELECT\n" + tail + "FROM t\n").replace("\n", nl)),
                                 "first_non_ascii_byte_at": next(i for i, b in enumerate(content[len(bom):]) if b >= 128) + len(bom)}))
+        # files in a single-byte code page (no BOM, not UTF-8): the detector has to SEE the late non-ASCII bytes to answer with a
+        # codec that decodes them; kept below 200 000 bytes, the prefix chardet itself samples
+        sb_tails = ["    'caf\u00e9 Z\u00fcrich Stra\u00dfe' AS b -- pr\u00e9nom\n", "    'na\u00efve fa\u00e7ade' AS b, 'se\u00f1or' AS c /* d\u00e9j\u00e0 vu */\n"]
+        for n in (0, 4096, 5000, 70000):
+            done = False
+            for tail in sb_tails:
+                content = (ascii_header(n) + "SELECT\n" + tail + "FROM t\n").encode("cp1252")
+                with open(p, "wb") as f:
+                    f.write(content)
+                ev += 1
+                nontriv += 1
+                enc = get_encoding(p, "autodetect")
+                try:
+                    back, err = content.decode(enc).encode(enc), None
+                except (UnicodeError, LookupError) as e:
+                    back, err = None, repr(e)[:200]
+                if back != content and not done:
+                    done = True
+                    failed.append(_failure(f"C11/get_encoding/whole-file[cp1252,header={n}]", "sqlfluff.core.helpers.file:get_encoding", {
+                        "header_bytes": n, "file_bytes": len(content), "file_encoding": "cp1252", "answer": enc, "strict_decode_error": err,
+                        "content": f"ascii_header({n}) + " + repr("SELECT\n" + tail + "FROM t\n") + ".encode('cp1252')"}))
     finally:
         shutil.rmtree(d, ignore_errors=True)
     return {"name": "get_encoding-decodes-whole-file",
-            "bound": f"ASCII headers of {ENC_SIZES} bytes x {len(NON_ASCII_TAILS)} non-ASCII UTF-8 tails x LF/CRLF x without/with UTF-8 BOM",
+            "bound": f"ASCII headers of {ENC_SIZES} bytes x {len(NON_ASCII_TAILS)} non-ASCII UTF-8 tails x LF/CRLF x without/with UTF-8 BOM; plus cp1252 files with headers of 0/4096/5000/70000 bytes x 2 tails",
             "rule": "non-trivial = every case (all contain non-ASCII text); contract: content.decode(answer).encode(answer) == content, strict",
             "evaluations": ev, "distinct_nontrivial": nontriv, "samples": samples, "failed": failed}
 
